@@ -116,7 +116,7 @@ def run(P, item):
             store, queue, cfg = cache_parts(P, cs[-1]['cache'], cs[-1]['ty'], 0)
         snap = dict(keys=[k for k, v in store.items] if store is not None else [], vals=[v for k, v in store.items] if store is not None else [], queue=list(queue.items) if queue is not None else [])
         if cs:
-            snap['stats1'] = cache_stats(P, cs[-1]['cache'], cs[-1]['ty']); snap['nlookups'] = len([c for c in log[nlog0:] if c['method'] == 'get'])
+            snap['stats1'] = cache_stats(P, cs[-1]['cache'], cs[-1]['ty']); snap['nlookups'] = len([c for c in log[nlog0:] if c['method'] == 'get']); snap['nfound'] = len([c for c in log[nlog0:] if c['method'] == 'get' and c['ret'].variant == 1])
         # ---- sequential probe: every argument tuple used, then one fresh store
         probe = []
         if item.get('probe', True) and store is not None:
@@ -130,7 +130,7 @@ def run(P, item):
         locks = [e for e in ctx.events[nlock0:] if e[0] in ('lock', 'unlock')]
         stats1 = None
         if g0 and snap.get('stats_after') is None: pass
-        return dict(stats0=stats0, nlookups=snap.get('nlookups'), stats1=snap.get('stats1'),subj=subj, rs=rs, snap=snap, cfg=cfg, fills=fills, fresh=fresh, progs=progs, probe=probe, locks=locks, sched=list(ctx.sched_trace), stats=None, env=env)
+        return dict(stats0=stats0, nlookups=snap.get('nlookups'), nfound=snap.get('nfound'), stats1=snap.get('stats1'),subj=subj, rs=rs, snap=snap, cfg=cfg, fills=fills, fresh=fresh, progs=progs, probe=probe, locks=locks, sched=list(ctx.sched_trace), stats=None, env=env)
 
     outs, st = explore(run_path, seed=item.get('seed', 0), timeout_ms=20000, max_paths=item.get('max_paths', 6000))
     ndead = 0
@@ -224,6 +224,8 @@ def oracle(item, d, claims, classes, ctx):
     if d.get('stats0') is not None and d.get('stats1') is not None and not any(op[0] == 'stats_reset' for p in item['progs'] for op in p):
         h0, m0 = d['stats0']; h1, m1 = d['stats1']
         add('C15', 'hits + misses grows by exactly the number of lookups performed, on every interleaving', simp((h1 + m1) - (h0 + m0) == d['nlookups']))
+        if d.get('nfound') is not None:
+            add('C15', 'a lookup is counted as a hit exactly when it found an unexpired entry, on every interleaving', simp(b_and(h1 - h0 == d['nfound'], m1 - m0 == d['nlookups'] - d['nfound'])))
     if d['probe']:
         pr = d['probe'][0]
         add('C18', 'sequential use after the concurrent phase computes a fresh key exactly once', pr['execs'] == 1)
@@ -247,7 +249,7 @@ def conc_witness(ctx, model, item, d):
     return dict(execs_conc=sum(len(r['execs']) for rs in d['rs'] for r in rs if r['op'] == 'call'), sleep_ms=sleep_ms, subject=item['subject'], progs=item['progs'], nfill=item.get('nfill', 0), fills=[[ev(x) for x in t] for t in d['fills']], fresh=[[ev(x) for x in v] for k, v in d['fresh']],
                 fresh_keys=[list(k) for k, v in d['fresh']], pred=[(cn, render_key(k, ev), ev(b)) for cn, k, b in d['env']['pred'].memo], sched=d['sched'],
                 locks=[[str(x) for x in e] for e in d['locks']], keys=[render_key(k, ev) for k in d['snap']['keys']], queue=[render_key(k, ev) for k in d['snap']['queue']],
-                keys2=[render_key(k, ev) for k in d['snap'].get('keys2', [])], nlookups=d.get('nlookups'), stats_delta=(ev((d['stats1'][0] + d['stats1'][1]) - (d['stats0'][0] + d['stats0'][1])) if d.get('stats0') is not None and d.get('stats1') is not None else None), probe=[ev(x) for x in d['probe'][0]['args']] if d['probe'] else None)
+                keys2=[render_key(k, ev) for k in d['snap'].get('keys2', [])], nlookups=d.get('nlookups'), nfound=d.get('nfound'), stats_delta=(ev((d['stats1'][0] + d['stats1'][1]) - (d['stats0'][0] + d['stats0'][1])) if d.get('stats0') is not None and d.get('stats1') is not None else None), probe=[ev(x) for x in d['probe'][0]['args']] if d['probe'] else None)
 
 
 def replay(f, w):
